@@ -23,12 +23,6 @@ struct Data {
     cache: TranspositionTable,
 }
 
-impl Data {
-    fn mut_refs(&mut self) -> (&mut Option<Game>, &mut TranspositionTable) {
-        (&mut self.current_game, &mut self.cache)
-    }
-}
-
 /// Enter uci mode and wait for commands
 ///
 /// Specification of UCI standard source
@@ -156,8 +150,10 @@ fn command_go(
     terms: &mut SplitAsciiWhitespace<'_>,
     search_is_running: &Arc<AtomicBool>,
 ) -> anyhow::Result<JoinHandle<()>> {
+    // The search thread gets its own game: whatever is sent while it starts up
+    // (a new position, ucinewgame) must not change or remove what it searches
     let mut data = data_mutex.lock().unwrap();
-    let Some(game) = data.current_game.as_mut() else {
+    let Some(game) = data.current_game.take() else {
         bail!("No game to play, please set a position first");
     };
 
@@ -250,15 +246,10 @@ fn command_go(
             #[cfg(daniel729_chess_verif)]
             crate::verif::sched("search_start");
             let mut data = data_mutex.lock().unwrap();
-            let (current_game, cache) = data.mut_refs();
             #[cfg(daniel729_chess_verif)]
             crate::verif::search_begin();
-            let best_move = get_best_move_until_stop(
-                current_game.as_mut().unwrap(),
-                cache,
-                &search_is_running,
-                depth,
-            );
+            let best_move =
+                get_best_move_until_stop(&game, &mut data.cache, &search_is_running, depth);
 
             // The search is over: a GUI that reads the bestmove line may send its
             // next command at once, so the flag must already be down
@@ -272,7 +263,6 @@ fn command_go(
 
             #[cfg(daniel729_chess_verif)]
             crate::verif::sched("after_bestmove");
-            *current_game = None;
         }
     });
 
